@@ -18,16 +18,25 @@ Proof.
   apply depth2_eqb_eq in Heq. subst. exact Hin.
 Qed.
 
-Lemma functional2_spec : forall l, functional2 l = true ->
-  forall a b, In a l -> In b l -> sel2 a = sel2 b -> a = b.
+Lemma same_key_intro : forall drain a b,
+  sel2 a = sel2 b -> (drain = true -> d2_iter a = d2_iter b) -> same_key drain a b = true.
 Proof.
-  induction l as [|d t IH]; simpl; intros H a b Ha Hb Hs; [contradiction|].
+  intros drain a b Hs Hi. unfold same_key. rewrite Hs, sel_eqb_refl. simpl.
+  destruct drain; simpl; [|reflexivity]. rewrite (Hi eq_refl). apply N.eqb_refl.
+Qed.
+
+Lemma functional2_spec : forall drain l, functional2 drain l = true ->
+  forall a b, In a l -> In b l -> sel2 a = sel2 b -> (drain = true -> d2_iter a = d2_iter b) -> a = b.
+Proof.
+  intros drain. induction l as [|d t IH]; simpl; intros H a b Ha Hb Hs Hi; [contradiction|].
   apply andb_true_iff in H. destruct H as [H1 H2].
   rewrite forallb_forall in H1.
   destruct Ha as [Ha|Ha]; destruct Hb as [Hb|Hb]; subst.
   - reflexivity.
-  - specialize (H1 b Hb). rewrite Hs in H1. rewrite sel_eqb_refl in H1. simpl in H1. apply depth2_eqb_eq in H1. exact H1.
-  - specialize (H1 a Ha). rewrite <- Hs in H1. rewrite sel_eqb_refl in H1. simpl in H1. apply depth2_eqb_eq in H1. auto.
+  - specialize (H1 b Hb). rewrite (same_key_intro drain a b Hs Hi) in H1. simpl in H1. apply depth2_eqb_eq in H1. exact H1.
+  - specialize (H1 a Ha).
+    assert (K : same_key drain b a = true) by (apply same_key_intro; [congruence | intros E; symmetry; auto]).
+    rewrite K in H1. simpl in H1. apply depth2_eqb_eq in H1. auto.
   - eapply IH; eauto.
 Qed.
 
@@ -41,7 +50,8 @@ Proof.
 Qed.
 
 Lemma check_state2_at : forall cb A pc d,
-  check2 cb A = true -> invariant2 cb A pc d -> check_state2 cb A pc d = true /\ functional2 (aget2 A pc) = true.
+  check2 cb A = true -> invariant2 cb A pc d ->
+  check_state2 cb A pc d = true /\ functional2 (in_drain cb pc) (aget2 A pc) = true.
 Proof.
   intros cb A pc d Hc [Hin Hst].
   unfold check2 in Hc. apply andb_true_iff in Hc. destruct Hc as [_ Hall].
@@ -83,9 +93,10 @@ Proof.
 Qed.
 
 Lemma verify2_merge_lemma : forall cb, verify2 cb = true ->
-  forall pc d1 d2, reach2 cb pc d1 -> reach2 cb pc d2 -> sel2 d1 = sel2 d2 -> d1 = d2.
+  forall pc d1 d2, reach2 cb pc d1 -> reach2 cb pc d2 -> sel2 d1 = sel2 d2 ->
+  (in_drain cb pc = true -> d2_iter d1 = d2_iter d2) -> d1 = d2.
 Proof.
-  intros cb Hv pc d1 d2 H1 H2 Hs. pose proof (verify2_check _ Hv) as Hc.
+  intros cb Hv pc d1 d2 H1 H2 Hs Hdr. pose proof (verify2_check _ Hv) as Hc.
   pose proof (check2_sound _ _ Hc _ _ H1) as I1. pose proof (check2_sound _ _ Hc _ _ H2) as I2.
   destruct (check_state2_at _ _ _ _ Hc I1) as [_ Hf].
   destruct I1 as [A1 _]. destruct I2 as [A2 _]. eapply functional2_spec; eauto.
@@ -97,7 +108,7 @@ Lemma asteps2_inv : forall cb pc d, asteps2 cb pc d <> None ->
   exists i e l1 l2 ns, find_instr cb pc = Some i /\ operands_ok cb i = true /\ effect (i_op i) (i_args i) = Some e /\
     norm_succs cb i e (d2_base d) = Some l1 /\ exc_succs cb i e (d2_base d) = Some l2 /\
     iter_norm (i_op i) (d2_iter d) = Some ns /\
-    asteps2 cb pc d = Some (pair_with l1 ns ++ pair_with l2 (iter_exc (i_op i) (d2_iter d))).
+    asteps2 cb pc d = Some (pair_with (refine_sel cb i (d2_iter d) l1) ns ++ pair_with l2 (iter_exc (i_op i) (d2_iter d))).
 Proof.
   intros cb pc d H. unfold asteps2 in *.
   destruct (find_instr cb pc) as [i|] eqn:Fi; [|congruence].
@@ -109,13 +120,24 @@ Proof.
   exists i, e, l1, l2, ns. repeat (split; [reflexivity || assumption|]). reflexivity.
 Qed.
 
-Lemma asteps2_base : forall cb pc d l, asteps2 cb pc d = Some l ->
+(* blocks without the drain loop of `yield*`: the extended machine is exactly a product over the base machine *)
+Definition no_drain (cb : codeblock) : bool := forallb (fun i => negb (is_stack_empty (i_op i))) (instrs cb).
+
+Lemma refine_sel_id : forall cb pc i n l, no_drain cb = true -> find_instr cb pc = Some i -> refine_sel cb i n l = l.
+Proof.
+  intros cb pc i n l Hnd Hi. unfold no_drain in Hnd. rewrite forallb_forall in Hnd.
+  specialize (Hnd i (find_instr_In _ _ _ Hi)). apply negb_true_iff in Hnd.
+  unfold refine_sel. rewrite <- (map_id l) at 2. apply map_ext. intros [p d]. simpl. f_equal.
+  unfold stack_empty_sel. destruct (i_op i); try reflexivity. discriminate Hnd.
+Qed.
+
+Lemma asteps2_base : forall cb pc d l, no_drain cb = true -> asteps2 cb pc d = Some l ->
   exists l0, asteps cb pc (d2_base d) = Some l0 /\ forall pc' d', In (pc', d') l -> In (pc', d2_base d') l0.
 Proof.
-  intros cb pc d l H.
+  intros cb pc d l Hnd H.
   assert (Hn : asteps2 cb pc d <> None) by congruence.
   destruct (asteps2_inv _ _ _ Hn) as [i [e [l1 [l2 [ns [Fi [Ok [Ef [Ns [Es [In_ Eq]]]]]]]]]]].
-  rewrite Eq in H. inversion H; subst l. clear H.
+  rewrite Eq in H. rewrite (refine_sel_id _ _ _ _ _ Hnd Fi) in H. inversion H; subst l. clear H.
   exists (l1 ++ l2). split.
   - unfold asteps. rewrite Fi, Ok, Ef, Ns, Es. reflexivity.
   - intros pc' d' Hin. apply in_app_or in Hin. apply in_or_app.
@@ -125,11 +147,11 @@ Proof.
 Qed.
 
 (* every state of the extended machine projects to a state of the machine of Bytecode_C03.v *)
-Lemma reach2_base : forall cb pc d, reach2 cb pc d -> reach cb pc (d2_base d).
+Lemma reach2_base : forall cb, no_drain cb = true -> forall pc d, reach2 cb pc d -> reach cb pc (d2_base d).
 Proof.
-  intros cb pc d H. induction H as [|pc d l pc' d' Hr IH Hs Hin].
+  intros cb Hnd pc d H. induction H as [|pc d l pc' d' Hr IH Hs Hin].
   - apply reach_entry.
-  - destruct (asteps2_base _ _ _ _ Hs) as [l0 [Ha Hsub]].
+  - destruct (asteps2_base _ _ _ _ Hnd Hs) as [l0 [Ha Hsub]].
     eapply reach_step; [exact IH | exact Ha | apply Hsub; exact Hin].
 Qed.
 
@@ -150,15 +172,15 @@ Qed.
 
 (* ... and under verify2 every state of the base machine is the projection of one of the extended machine:
    so the base machine is never stuck either (all the guarantees of Props_C03.v follow from verify2 alone) *)
-Lemma reach_lift : forall cb, verify2 cb = true ->
+Lemma reach_lift : forall cb, no_drain cb = true -> verify2 cb = true ->
   forall pc d, reach cb pc d -> exists n, reach2 cb pc (mkD2 d n).
 Proof.
-  intros cb Hv pc d H. induction H as [|pc d l pc' d' Hr IH Hs Hin].
+  intros cb Hnd Hv pc d H. induction H as [|pc d l pc' d' Hr IH Hs Hin].
   - exists 0. apply reach2_entry.
   - destruct IH as [n R2].
     destruct (verify2_sound_lemma _ Hv _ _ R2) as [_ [_ Hn]].
     destruct (asteps2_inv _ _ _ Hn) as [i [e [l1 [l2 [ns [Fi [Ok [Ef [Ns [Es [In_ Eq]]]]]]]]]]].
-    simpl in Ns, Es, In_, Eq.
+    simpl in Ns, Es, In_, Eq. rewrite (refine_sel_id _ _ _ _ _ Hnd Fi) in Eq.
     unfold asteps in Hs. rewrite Fi, Ok, Ef, Ns, Es in Hs. simpl in Hs. inversion Hs; subst l. clear Hs.
     apply in_app_or in Hin. destruct Hin as [Hin|Hin].
     + destruct ns as [|m ns'] eqn:En; [exfalso; eapply iter_norm_nonempty; eauto|].
@@ -169,14 +191,14 @@ Proof.
       apply in_or_app. right. apply pair_with_In; [exact Hin | left; reflexivity].
 Qed.
 
-Lemma verify2_base_safe_lemma : forall cb, verify2 cb = true ->
+Lemma verify2_base_safe_lemma : forall cb, no_drain cb = true -> verify2 cb = true ->
   forall pc d, reach cb pc d -> (exists i, find_instr cb pc = Some i) /\ asteps cb pc d <> None.
 Proof.
-  intros cb Hv pc d Hr. destruct (reach_lift _ Hv _ _ Hr) as [n R2].
+  intros cb Hnd Hv pc d Hr. destruct (reach_lift _ Hnd Hv _ _ Hr) as [n R2].
   destruct (verify2_sound_lemma _ Hv _ _ R2) as [_ [Hi Hn]].
   split; [exact Hi|].
   destruct (asteps2 cb pc (mkD2 d n)) as [l|] eqn:E; [|congruence].
-  destruct (asteps2_base _ _ _ _ E) as [l0 [Ha _]]. simpl in Ha. congruence.
+  destruct (asteps2_base _ _ _ _ Hnd E) as [l0 [Ha _]]. simpl in Ha. congruence.
 Qed.
 
 Lemma iterator_present_lemma : forall cb, verify2 cb = true ->
@@ -189,4 +211,21 @@ Proof.
   destruct (d2_iter d =? 0) eqn:Z.
   - exfalso. destruct (i_op i); try discriminate Hneed; simpl in In_; rewrite Z in In_; discriminate.
   - apply N.eqb_neq in Z. lia.
+Qed.
+
+(* what "not stuck" means for the extended machine, for every block (with or without the drain loop) *)
+Lemma step_safe2_lemma : forall cb, verify2 cb = true ->
+  forall pc d, reach2 cb pc d ->
+  exists i e, find_instr cb pc = Some i /\ operands_ok cb i = true /\ effect (i_op i) (i_args i) = Some e /\
+    (e_flow e <> FStop ->
+       e_pop e <= d_stk (d2_base d) /\ (e_env e = EPop -> d_env (d2_base d) <> 0) /\
+       (e_bind e = BPop -> d_bind (d2_base d) <> [])) /\
+    (needs_iter (i_op i) = true -> 0 < d2_iter d).
+Proof.
+  intros cb Hv pc d Hr.
+  destruct (verify2_sound_lemma _ Hv _ _ Hr) as [_ [_ Hn]].
+  destruct (asteps2_inv _ _ _ Hn) as [i [e [l1 [l2 [ns [Fi [Ok [Ef [Ns [Es [In_ Eq]]]]]]]]]]].
+  exists i, e. split; [exact Fi|]. split; [exact Ok|]. split; [exact Ef|]. split.
+  - intros Hf. exact (norm_succs_inv _ _ _ _ _ Ns Hf).
+  - intros Hneed. eapply iterator_present_lemma; eauto.
 Qed.
